@@ -7,3 +7,5 @@ import XProofs.Properties.C14
 #print axioms Properties.C14.C14_cols_rect
 #print axioms Properties.C14.C14_step_rect
 #print axioms Properties.C14.C14_chain_rect
+#print axioms Properties.C14.C14_transpose_rect
+#print axioms Properties.C14.C14_concat_rect
